@@ -278,10 +278,26 @@ func runC05(c *ctx) {
 		}
 		c05Payload(c, sc, text, how)
 	}
+	// every attribute and relationship of the all-kinds type given every off-kind value
+	{
+		sw, _ := payloadSchema(c.r)
+		all := sw.spec("alltypes")
+		for _, f := range all.fields {
+			for _, v := range offKind {
+				o := jObj().set("id", jString("1")).set("type", jString("alltypes"))
+				if f.rel {
+					o.set("relationships", jObj().set(f.name, jObj().set("data", v.clone())))
+				} else {
+					o.set("attributes", jObj().set(f.name, v.clone()))
+				}
+				c05Payload(c, sw, o.text(), "off-kind sweep")
+			}
+		}
+	}
 	// identifiers
 	sc, _ := payloadSchema(c.r)
 	for _, t := range []string{`[null]`, `null`, `[]`, `{}`, `{"id":"1","type":"other"}`, `{"id":"1","type":"zz"}`, `{"id":"","type":"other"}`, `{"ID":"1","TYPE":"other"}`,
-		`[{"id":"1","type":"other"},null]`, `[{"id":"1","type":"other"},{"id":"2","type":"alltypes"}]`, `[{"id":1}]`, `"x"`, `5`, `[5]`, `{"id":null,"type":null}`,
+		`[{"id":"1","type":"other"},null]`, `[{"id":"1","type":"other"},{"id":"2","type":"alltypes"}]`, `[{"id":"1","type":"other"},{"id":"2","type":"zz"}]`, `[{"id":"1","type":"other"},{"id":"2","type":""}]`, `[{"id":"1","type":"other"},{"id":"","type":"other"}]`, `[{"id":1}]`, `"x"`, `5`, `[5]`, `{"id":null,"type":null}`,
 		`{"data":[null]}`, `{"data":null,"included":[null]}`, `{"data":{"id":"1","type":"other"},"included":[5]}`, `{"errors":[null,{"id":5}]}`, `{"errors":[{"links":{"a":null}}]}`,
 		`{"data":"x"}`, `{"data":5}`, `{"data":true}`, `{"meta":5}`, `{"data":[{"id":"1","type":"other"}],"data":null}`} {
 		c05Payload(c, sc, t, "corpus")
